@@ -160,6 +160,12 @@ func c13Jobs(tier string) []*Job {
 		for _, start := range []uint32{4, 5} { // X = index 2 is primary of height 6 (start 5), backup at height 5
 			jobs = append(jobs, job(e2WatchScen(fmt.Sprintf("E2-watchflag-x2-start%d-%s", start, amevName(a)), 4, 2, false, a, false, start, sp), per))
 		}
+		// hot standby: an active instance holding the same key runs elsewhere, so payloads carrying the watch-only
+		// node's own validator index reach it (also the case after a restart in watch-only mode in the middle of a height)
+		sps := sp
+		sps.Peers = []int{0, 1, 2, 3}
+		sps.Proposals = "A"
+		jobs = append(jobs, job(e2WatchScen("E2-watchflag-x2-standby-"+amevName(a), 4, 2, false, a, false, 4, sps), per))
 		spo := sp
 		spo.Peers = nil
 		jobs = append(jobs, job(e2WatchScen("E2-outside-"+amevName(a), 4, 0, true, a, false, 4, spo), per))
@@ -269,6 +275,15 @@ func c11Jobs(tier string) []*Job {
 			jobs = append(jobs, job(sc, per))
 		}
 	}
+	// a backup that lacks a different transaction in each view (what it asked for in view 0 is not what view 1 needs)
+	for _, a := range []int64{-1, 0} {
+		sp := E2Spec{Views: 2, Proposals: "A", Responses: "A", RespPeers: 2, Commits: "A", CVs: 1, Bundles: true, MaxDepth: 12, StateCap: cap}
+		sc := e2scen(fmt.Sprintf("C11-sweep-N4-x%d-missing-per-view-%s", other, amevName(a)), 4, other, a, sp)
+		sc.Missing = map[int][]H{other: {101, 103}}
+		sc.BadTx = map[int][]H{}
+		sc.Sweep = true
+		jobs = append(jobs, job(sc, per))
+	}
 	// validator set (size, membership, own index) changes between heights; next-height traffic; ledger skip
 	sp := E2Spec{Views: 1, Proposals: "A", Responses: "A", Commits: "A", CVs: 1, NextHeight: true, OldHeight: true, Skip: true, Heights: 2, MaxDepth: 14, StateCap: cap}
 	sc := e2scen("C11-sweep-changing-validators", 4, 2, -1, sp)
@@ -310,7 +325,7 @@ func c05Jobs(tier string) []*Job {
 			pc = "A"
 		}
 		for _, x := range []int{3, 2} { // 3: backup at heights 5 and 6; 2: backup at 5, primary at 6
-			sp := E2Spec{Views: 1, Proposals: "A", Responses: "A", RespPeers: 2, Commits: "AG", PreCommits: pc, CVs: 1, NextHeight: true, OldHeight: true, Skip: true,
+			sp := E2Spec{Views: 1, Proposals: "A", Responses: "A", RespPeers: 2, Commits: "AG", PreCommits: pc, CVs: 1, NextHeight: true, OldHeight: true, Skip: true, Bundles: true,
 				Heights: 2, MaxDepth: 16, StateCap: cap}
 			sc := e2scen(fmt.Sprintf("C05-twin-N4-x%d-%s", x, amevName(a)), 4, x, a, sp)
 			sc.Twin = true
@@ -326,6 +341,16 @@ func c05Jobs(tier string) []*Job {
 	sc.Twin = true
 	sc.Missing, sc.BadTx = map[int][]H{}, map[int][]H{}
 	jobs = append(jobs, job(sc, per))
+	// dynamic block time configured, empty pool and empty proposals: the transaction subscription (taken on the first
+	// timeout of an idle backup / primary) is per-height state too
+	for _, x := range []int{3, 2} {
+		spd := E2Spec{Views: 1, Proposals: "A", Responses: "A", RespPeers: 2, Commits: "A", CVs: 1, NextHeight: true, Skip: true, Heights: 2, MaxDepth: 16, StateCap: cap, TxA: []H{}}
+		scd := e2scen(fmt.Sprintf("C05-twin-N4-x%d-dynamic-block-time", x), 4, x, -1, spd, withPool())
+		scd.MaxTimePerBlock = 30e9
+		scd.Twin = true
+		scd.Missing, scd.BadTx = map[int][]H{}, map[int][]H{}
+		jobs = append(jobs, job(scd, per))
+	}
 	// E1: closed-world multi-height runs (late traffic after the decision, early traffic before Reset, ledger sync of a lagging node)
 	multi := func(name string, n int, opts ...opt) *Scenario {
 		sc := scen(name, n, append([]opt{withHeights(3), withK(k)}, opts...)...)
